@@ -133,6 +133,7 @@ class Ctx:
         self.ids = []
         self.sched = sched
         self.name = name
+        self.shared_ops = False
 
     def point(self, label):
         """yield point = start of an instruction = boundary between two steps of the abstract machine"""
@@ -175,6 +176,22 @@ def prim(ctx, p, a):
     raise ValueError(p)
 
 
+def _shared_body(y, ctx, b, fr):
+    ctx.ids.append(y._trace if isbox(y) else None)
+    return run_body(ctx, b, [y], fr)
+
+
+# ONE operator object per kind for the whole process: every thread and every nesting level calls the same grad / make_vjp / make_jvp
+# object (a module-level `dfdx = grad(f)`), telling the levels apart by extra positional arguments (C20: shared_ops cases)
+SHARED = {}
+
+
+def shared_op(kind):
+    if kind not in SHARED:
+        SHARED[kind] = {"vjp": make_vjp, "jvp": make_jvp, "grad": grad}[kind](_shared_body)
+    return SHARED[kind]
+
+
 def run_body(ctx, b, regs0, link):
     fr = Frame(list(regs0), link)
     for ins in ctx.bodies[b - 1]:
@@ -193,7 +210,13 @@ def run_body(ctx, b, regs0, link):
             def f(y, ins=ins, fr=fr):
                 ctx.ids.append(y._trace if isbox(y) else None)
                 return run_body(ctx, ins["b"], [y], fr)
-            if ins["mode"] == "vjp":
+            if ctx.shared_ops:
+                if ins["mode"] == "vjp":
+                    vjp, _v = shared_op("vjp")(at, ctx, ins["b"], fr)
+                    r = vjp(seed)
+                else:
+                    _v, r = shared_op("jvp")(at, ctx, ins["b"], fr)(seed)
+            elif ins["mode"] == "vjp":
                 if ctx.variant % 5 == 3 and not ctx.array_mode and seed == 1.0 and not ctx.prog.get("warnerr"):
                     r = grad(f)(at)       # same thing through the public convenience wrapper
                 else:
